@@ -48,6 +48,9 @@ var Programs = []string{
 	`(?i)foobar|bazqux`, `x[α-ω]+`,
 }
 
+// quickSkip: programs whose strategy is already represented by another program of the quick tier.
+var quickSkip = map[string]bool{`\bfoo\b`: true, `a.*b`: true, `.*\.txt`: true, `(?i)foobar|bazqux`: true}
+
 // LargePrograms are explored with one haystack beyond the bounded backtracker's input limit (32 Mi / NFA states
 // entries), which switches the engine to its large-input fallback paths. A haystack written "@repeat:N:text" stands
 // for text repeated N times (kept symbolic so that reports stay small).
@@ -84,44 +87,42 @@ func HaysFor(pattern string) []string {
 	return []string{h[0], h[1], ""}
 }
 
-// Units enumerates the harnesses of a tier: for every program, every multiset of 2 threads × 1 call (quick) plus,
-// in the thorough tier, 2 threads × 2 calls and 3 threads × 1 call over a reduced API menu.
+// Units enumerates the harnesses of a tier. Quick, for 18 of the 22 programs: every API against itself on the same and
+// on two different haystacks (16), three mixed pairs on the same haystack, three 2-calls-per-thread harnesses with
+// the same call pair on both threads in opposite haystack order, and for every fourth program two 3-thread harnesses
+// and a longest-mode one. Thorough: every unordered API pair (with repetition) on same / different / empty haystacks,
+// all nine 2x2 combinations, and the 3-thread and longest harnesses for every program — a superset of quick.
 func Units(thorough bool) []Unit {
 	var out []Unit
 	for pi, p := range Programs {
-		if !thorough && pi%2 == 1 {
-			continue // quick: every other program (one per strategy family); thorough: all
-		}
 		hs := HaysFor(p)
-		var calls []Call
-		for _, a := range APIs {
-			for _, h := range hs {
-				calls = append(calls, Call{a, h})
-			}
-		}
-		// 2 threads × 1 call: all unordered pairs (with repetition) of a reduced cross product: every API pair on
-		// (same haystack) and (different haystack), plus the empty haystack against the matching one
-		apis := APIs
-		if !thorough {
-			apis = APIs[:4] // quick: Match, FindIndex, FindSubmatchIndex, FindAllIndex (every pair); thorough: all 8
-		}
-		for i, a := range apis {
-			for _, b := range apis[i:] {
-				out = append(out, Unit{p, false, [][]Call{{{a, hs[0]}}, {{b, hs[0]}}}})
-				out = append(out, Unit{p, false, [][]Call{{{a, hs[0]}}, {{b, hs[1]}}}})
-				if thorough {
+		if thorough {
+			for i, a := range APIs {
+				for _, b := range APIs[i:] {
+					out = append(out, Unit{p, false, [][]Call{{{a, hs[0]}}, {{b, hs[0]}}}})
+					out = append(out, Unit{p, false, [][]Call{{{a, hs[0]}}, {{b, hs[1]}}}})
 					out = append(out, Unit{p, false, [][]Call{{{a, hs[2]}}, {{b, hs[0]}}}})
 					out = append(out, Unit{p, false, [][]Call{{{a, hs[1]}}, {{b, hs[1]}}}})
 				}
+			}
+		} else {
+			if quickSkip[p] {
+				continue // a second program of an already represented strategy: thorough tier only
+			}
+			for _, a := range APIs {
+				out = append(out, Unit{p, false, [][]Call{{{a, hs[0]}}, {{a, hs[0]}}}})
+				out = append(out, Unit{p, false, [][]Call{{{a, hs[0]}}, {{a, hs[1]}}}})
+			}
+			for _, ab := range [][2]string{{"Match", "FindIndex"}, {"FindSubmatchIndex", "FindAllIndex"}, {"Match", "FindAllIndex"}} {
+				out = append(out, Unit{p, false, [][]Call{{{ab[0], hs[0]}}, {{ab[1], hs[0]}}}})
 			}
 		}
 		// 2 threads × 2 calls: state hand-back and re-acquisition inside one thread
 		two := [][2]string{{"Match", "FindIndex"}, {"FindSubmatchIndex", "Count"}, {"FindAllIndex", "ReplaceAllString"}}
 		for _, x := range two {
 			for _, y := range two {
-				out = append(out, Unit{p, false, [][]Call{{{x[0], hs[0]}, {x[1], hs[1]}}, {{y[0], hs[1]}, {y[1], hs[0]}}}})
-				if !thorough {
-					break
+				if thorough || x == y {
+					out = append(out, Unit{p, false, [][]Call{{{x[0], hs[0]}, {x[1], hs[1]}}, {{y[0], hs[1]}, {y[1], hs[0]}}}})
 				}
 			}
 		}
@@ -153,7 +154,7 @@ var RunUnit func(w *harness.W, u Unit, bound int, capExec int)
 func Plan(tier string) *harness.Plan {
 	thorough := tier == "thorough"
 	units := Units(thorough)
-	bound, capExec := 2, 1000
+	bound, capExec := 2, 600
 	budget := 150 * time.Second
 	if thorough {
 		bound, capExec, budget = 2, 200000, 25*time.Minute
@@ -166,7 +167,7 @@ func Plan(tier string) *harness.Plan {
 			}
 			b, c := bound, capExec
 			if w.Pass == "race-detector" && !thorough {
-				b, c = 1, 300 // the -race build is ~10x slower: the quick tier runs it at preemption bound 1
+				b, c = 1, 150 // the -race build is ~10x slower: the quick tier runs it at preemption bound 1
 			}
 			if strings.Contains(units[u].String(), "@repeat:") {
 				c = min(c, 150) // executions over a large haystack are ~100x more expensive
@@ -182,7 +183,7 @@ func Plan(tier string) *harness.Plan {
 				}
 			}
 		},
-		Rule:  "Stateless model checking of the real code: the repository is rebuilt with sync.Pool and atomic.Pointer (Swap/CompareAndSwap/Load/Store) replaced (go build -overlay, generated from the current tree) by shims that make every such operation a scheduling point followed by the real atomic operation. For every program (one per strategy seed) and every harness (2 threads × 1 call over all API pairs on the same / a different haystack, 2 threads × 2 calls, 3 threads × 1 call, longest mode) ALL interleavings with at most c preemptions (c iterated 0,1,2; an explored 'the collector emptied the pool' environment choice also costs one) are enumerated depth-first; every execution starts from a freshly compiled value. Oracle A on every execution: no object obtained from a pool or atomic slot is obtained by a second thread while held; every call's result equals its result when run alone on a fresh value. Oracle B (second pass, -race build, same exhaustive schedules): the race detector's happens-before analysis on each explored execution — thread hand-off uses raw pipe system calls invisible to the detector, so it sees only the program's own synchronisation. states = scheduling points visited; transitions = scheduling decisions taken; evaluations = complete executions (schedules); non-trivial = executions with at least one preemption or environment deviation.",
+		Rule:  "Stateless model checking of the real code: the repository is rebuilt with sync.Pool and atomic.Pointer (Swap/CompareAndSwap/Load/Store) replaced (go build -overlay, generated from the current tree) by shims that make every such operation a scheduling point followed by the real atomic operation. For every program (one per strategy seed) and every harness (quick, 18 programs: every API against itself on the same and on two different haystacks, three mixed API pairs on one haystack, 2 threads × 2 calls with the same call pair in opposite haystack order, and for every fourth program 3 threads × 1 call and longest mode; thorough: every API pair on same / different / empty haystacks, all 2 × 2 combinations, 3-thread and longest harnesses for every program) ALL interleavings with at most c preemptions (c iterated 0,1,2; an explored 'the collector emptied the pool' environment choice also costs one) are enumerated depth-first; every execution starts from a freshly compiled value. Oracle A on every execution: no object obtained from a pool or atomic slot is obtained by a second thread while held; every call's result equals its result when run alone on a fresh value. Oracle B (second pass, -race build, same exhaustive schedules): the race detector's happens-before analysis on each explored execution — thread hand-off uses raw pipe system calls invisible to the detector, so it sees only the program's own synchronisation. states = scheduling points visited; transitions = scheduling decisions taken; evaluations = complete executions (schedules); non-trivial = executions with at least one preemption or environment deviation.",
 		Level: "model_checking", Budget: budget, UnitTimeout: 300 * time.Second,
 		Bounds: map[string]any{"threads_max": 3, "calls_per_thread_max": 2, "preemption_bound": bound, "executions_cap_per_harness": capExec, "programs": len(Programs), "harnesses": len(units)},
 		Assume: []string{"sequentially consistent interleavings at synchronisation operations; weak-memory reorderings are not modelled (L3)", "the race detector's happens-before analysis and the invisibility of raw pipe syscalls to it", "scheduling points are exactly the sync.Pool / atomic operations of the library (unsynchronised accesses are Oracle B's business)"},
